@@ -55,6 +55,9 @@ OP = st.one_of(
     st.tuples(st.just("sync"), I2, I2, st.sampled_from(PAIRS), st.booleans()),
     st.tuples(st.just("sync"), I2, I2, st.sampled_from(PAIRS), st.booleans()),
     st.tuples(st.just("unsync"), st.integers(0, 9)),
+    # the same pair again: re-issue an existing link with another direction / mutual flag, or take one direction away
+    st.tuples(st.just("resync"), st.integers(0, 9), st.booleans(), st.booleans()),
+    st.tuples(st.just("unsync1"), st.integers(0, 9), st.booleans()),
     st.tuples(st.just("gc"), I2),
 ).map(list)
 
@@ -125,6 +128,8 @@ def run(case, ctx):
     links = []
     calls = {}
     err = []
+    reconv = set()         # keys reached twice by one item event (F32)
+    single = {}            # what one application of the event gives there
 
     def mk(i, n):
         def h(obj, name, old, new):
@@ -159,17 +164,26 @@ def run(case, ctx):
                 m_assign(dst, val, locked)
         locked.discard(key)
 
-    def m_mutate(key, new_val, old_val, locked):
+    def m_mutate(key, new_val, old_val, locked, visited=None):
         """Model of an in-place mutation of the list at key that turned old_val into new_val."""
+        visited = set() if visited is None else visited
         M[key] = list(new_val)
+        visited.add(key)
+        single[key] = list(new_val)
         locked.add(key)
         for dst in out_edges(key):
             if dst in locked or objs[dst[0]] is None:
                 continue
             cur = M[dst]
-            if cur is not UNKNOWN and cur == old_val:
+            if dst in visited:
+                # F32: the links form a second path to a partner that already received this item event; it is not
+                # locked any more, so the slice operation is replayed on it a second time
+                ctx.label("reconvergent-path")
+                reconv.add(dst)
+                poison(dst, set(locked))
+            elif cur is not UNKNOWN and cur == old_val:
                 if accepts(dst[1], new_val):
-                    m_mutate(dst, new_val, cur, locked)
+                    m_mutate(dst, new_val, cur, locked, visited)
                 else:
                     ctx.label("partner-rejects")      # stays as it was
             else:
@@ -195,9 +209,19 @@ def run(case, ctx):
             k = op[0]
             calls.clear()
             del err[:]
+            reconv.clear()
+            single.clear()
             what = "op=%r edges=%r" % (op, sorted(edges))
             raised = None
             try:
+                if k == "resync":
+                    if not links:
+                        continue
+                    i, n, j, a, _ = links[op[1] % len(links)]
+                    op = ["sync", j, i, [a, n], op[2]] if op[3] else ["sync", i, j, [n, a], op[2]]
+                    k = "sync"
+                    interesting = True
+                    ctx.label("resync")
                 if k == "set":
                     i, n, val = op[1], op[2], op[3]
                     if objs[i] is None:
@@ -263,6 +287,23 @@ def run(case, ctx):
                         edges.discard((j, a, i, n))
                     interesting = True
                     ctx.label("unlink")
+                elif k == "unsync1":
+                    if not links:
+                        continue
+                    idx = op[1] % len(links)
+                    i, n, j, a, mutual = links[idx]
+                    if objs[i] is None or objs[j] is None:
+                        continue
+                    if op[2]:
+                        i, n, j, a = j, a, i, n
+                    objs[i].sync_trait(n, objs[j], a, mutual=False, remove=True)
+                    edges.discard((i, n, j, a))
+                    if (j, a, i, n) in edges:
+                        links[idx] = [j, a, i, n, False]
+                    else:
+                        links.pop(idx)
+                    interesting = True
+                    ctx.label("unlink-one-direction")
                 elif k == "gc":
                     i = op[1]
                     if objs[i] is None or not any(e[0] == i or e[2] == i for e in edges):
@@ -287,6 +328,15 @@ def run(case, ctx):
                 ctx.fail("quiet/raised", "%s raised %r" % (what, raised))
             if err:
                 ctx.fail("quiet/exception-handler", "%s routed an exception to the notification exception handler: %r" % (what, err[:1]))
+            for (i, n) in sorted(reconv):
+                if objs[i] is None:
+                    continue
+                got = list(getattr(objs[i], n))
+                c = max(calls.get((i, n + "_items"), 0), calls.get((i, n), 0))
+                if got != single[(i, n)] or c > 1:
+                    ctx.fail("state/doubled-update/reconvergent-links", "%s: objs[%d].%s is reached along two link paths and "
+                             "had the item event applied twice: %r (one application gives %r), its handler ran %d times"
+                             % (what, i, n, got, single[(i, n)], c))
             # ---- state equals the model
             for (i, n), want in M.items():
                 if objs[i] is None or want is UNKNOWN:
@@ -314,4 +364,4 @@ def run(case, ctx):
 
 def stages(tier):
     return [{"name": "hist", "kind": "hyp", "strategy": strategy, "run": run,
-             "examples": {"quick": 4000, "thorough": 300000}, "shards": 16}]
+             "examples": {"quick": 12000, "thorough": 300000}, "shards": 16}]
